@@ -88,7 +88,8 @@ def run_check(cid, tier='quick', seed=0, jobs=16, limit=None):
                      env.get('PYTHONPATH', '')) if p])
     env.setdefault('PYTHONHASHSEED', '0')
     env['TMPDIR'] = scratch
-    budget = getattr(mod, 'SHARD_TIMEOUT', {}).get(tier, 1500)
+    budget = getattr(mod, 'SHARD_TIMEOUT', {}).get(
+        tier, 1500 if tier == 'quick' else 7200)
     work = []
     for i, sh in enumerate(shards):
         sf = os.path.join(scratch, 'shard%d.json' % i)
